@@ -381,6 +381,17 @@ func (b *BlockWise[C]) Handle(w *responsewriter.ResponseWriter[C], r *pool.Messa
 	// by the peer's request for the next block, a request we upload by the peer's response. Tokens are scoped per
 	// direction, so a request of the peer may carry the token of a request of ours - the two are unrelated.
 	if !sendingMessageExist || wantsToBeReceived(r) || isMethod(sendingMessageCode) == isMethod(r.Code()) {
+		if sendingMessageExist && isMethod(sendingMessageCode) && !isMethod(r.Code()) {
+			// r is (part of) the response to a request that is kept for sending. A request sent with Do is removed
+			// when Do returns; one sent with WriteMessage has nobody waiting: it is dropped at the moment the
+			// complete response is handed over (next is only called with a complete body, so a block-wise
+			// response can still be paired with the request while it is being fetched).
+			origNext := next
+			next = func(w *responsewriter.ResponseWriter[C], r *pool.Message) {
+				b.sendingMessagesCache.Delete(tokenStr)
+				origNext(w, r)
+			}
+		}
 		err := b.handleReceivedMessage(w, r, maxSZX, maxMessageSize, next)
 		if err != nil {
 			b.sendEntityIncomplete(w, token)
